@@ -36,7 +36,7 @@ package crypto
 //@ assume func decodePoint
 //@   modifies nothing
 //@   ensures err == nil <==> DecodableSeq(seq(src))
-//@   ensures err == nil ==> result0 != nil
+//@   ensures err == nil ==> result0 != nil && *result0 == PDecode(seq(src))
 //@   ensures err != nil ==> result0 == nil
 
 //@ -- VerifyWithChallenge: undecodable key / R, non-canonical s are reported as false; otherwise the group equation.
@@ -170,3 +170,19 @@ package crypto
 //@   loop 0 invariant [vis] forall k int :: visited(k) ==> has(responses, k) && has(c.commitments, k) && c.commitments[k] != nil &&
 //@       old(CanonicalScalar(seq(*responses[k]))) &&
 //@       (strict ==> old(ShareOK(seq(*publics[k]), seq(*c.commitments[k]), seq(*responses[k]), ChalOf(c, publics, message))))
+
+// ───────────── completeness algebra (BOUNDED: at most 3 signers; exponent arithmetic, not the code) ─────────────
+
+//@ -- In the prime-order group of order l every point is e*B for an exponent e, so the verification equation S*B == R + c*A is
+//@ -- the congruence S == r + c*a (mod l) between exponents. Representatives: share i is s_i = c*a_i + r_i - k_i*l for some
+//@ -- integer k_i (Scalar.MultiplyAdd reduces mod l), the aggregate response is S = s_1 + .. + s_n (mod l), the aggregate key
+//@ -- and commitment have exponents a = a_1 + .. + a_n and r = r_1 + .. + r_n. The lemma states S - (r + c*a) is a multiple of
+//@ -- l for n = 1, 2, 3. It is a statement about integers, NOT about crypto/cosi.go: that the code computes these sums is the
+//@ -- uninterpreted part (T-GROUP). The n-signer induction over map-ordered sums is not attempted.
+//@ lemma CosiCompleteness3(c, l, a1, a2, a3, r1, r2, r3, s1, s2, s3, k1, k2, k3 mathint)
+//@   property C13
+//@   requires l > 0
+//@   requires s1 == c * a1 + r1 - k1 * l && s2 == c * a2 + r2 - k2 * l && s3 == c * a3 + r3 - k3 * l
+//@   ensures [n1] s1 - (r1 + c * a1) == (0 - k1) * l
+//@   ensures [n2] (s1 + s2) - ((r1 + r2) + c * (a1 + a2)) == (0 - (k1 + k2)) * l
+//@   ensures [n3] (s1 + s2 + s3) - ((r1 + r2 + r3) + c * (a1 + a2 + a3)) == (0 - (k1 + k2 + k3)) * l
